@@ -107,6 +107,11 @@ class _Helper:
     def _returns_ok(self, stmts, in_block=False):
         """returns only at statement-list level or inside if/else chains"""
         for s in stmts:
+            if isinstance(s, ast.Try) and not s.finalbody and any(isinstance(n, ast.Return) for n in ast.walk(s)):
+                # returns at statement / if-else level of the try body, its handlers and its else are converted
+                if not all(self._returns_ok(b, True) for b in [s.body, s.orelse] + [h.body for h in s.handlers]):
+                    return False
+                continue
             if isinstance(s, (ast.For, ast.AsyncFor, ast.While, ast.Try, ast.With, ast.AsyncWith)):
                 if any(isinstance(n, ast.Return) for n in ast.walk(s)):
                     return False
@@ -121,6 +126,9 @@ def _always_returns(stmts):
         if isinstance(s, (ast.Return, ast.Raise)):
             return True
         if isinstance(s, ast.If) and s.orelse and _always_returns(s.body) and _always_returns(s.orelse):
+            return True
+        if isinstance(s, ast.Try) and not s.finalbody and (_always_returns(s.body) or (s.orelse and _always_returns(s.orelse))) \
+                and all(_always_returns(h.body) for h in s.handlers):
             return True
     return False
 
@@ -141,6 +149,19 @@ def _single_exit(stmts, ret):
                                                         value=s.value if s.value is not None else ast.Constant(value=None), lineno=s.lineno), s))
             elif s.value is not None and not _simple(s.value):
                 out.append(ast.copy_location(ast.Expr(value=s.value), s))
+            return out
+        if isinstance(s, ast.Try) and not s.finalbody and _has_return([s]):
+            # code after the try runs only when no branch returned: it moves into the `else` of the try
+            # (body completed) and to the end of every handler that falls through
+            b_ret = _always_returns(s.body)
+            body = _single_exit(list(s.body), ret)
+            orelse = [] if b_ret else _single_exit(list(s.orelse) + copy.deepcopy(rest), ret)
+            handlers = []
+            for h in s.handlers:
+                h_ret = _always_returns(h.body)
+                hb = _single_exit(list(h.body) + ([] if h_ret else copy.deepcopy(rest)), ret)
+                handlers.append(ast.copy_location(ast.ExceptHandler(type=h.type, name=h.name, body=hb or [ast.Pass()]), h))
+            out.append(ast.copy_location(ast.Try(body=body or [ast.Pass()], handlers=handlers, orelse=orelse, finalbody=[]), s))
             return out
         if isinstance(s, ast.If) and (_has_return(s.body) or _has_return(s.orelse)):
             b_ret, o_ret = _always_returns(s.body), _always_returns(s.orelse) if s.orelse else False
